@@ -24,6 +24,21 @@ MulR(a, b)        == ZMul(a, b)
 (* division: zero divisor fails for every convention and type *)
 FailsDiv(b)       == b.s = 0
 
+DivConv(op) ==
+    CASE op \in {"div", "rem", "div_rem", "checked_div", "is_multiple_of"} -> "trunc"
+      [] op \in {"div_floor", "mod_floor", "div_mod_floor"} -> "floor"
+      [] op \in {"div_euclid", "rem_euclid", "div_rem_euclid", "checked_div_euclid",
+                 "checked_rem_euclid", "checked_div_rem_euclid"} -> "euclid"
+      [] op = "div_ceil" -> "ceil"
+IsDivPair(conv, a, b, q, r) ==
+    CASE conv = "trunc"  -> IsTruncDivRem(a, b, q, r)
+      [] conv = "floor"  -> IsFloorDivMod(a, b, q, r)
+      [] conv = "euclid" -> IsEuclidDivRem(a, b, q, r)
+      [] conv = "ceil"   -> IsCeilDivRem(a, b, q, r)
+\* only zero is a multiple of zero
+IsMultipleOf(a, b, hintq) ==
+    IF b.s = 0 THEN a.s = 0 ELSE ZEq(a, ZMul(hintq, b))
+
 (* construction from digit material *)
 OfBytesLE(sgn, bytes) == Z(sgn, Norm(bytes))
 OfBytesBE(sgn, bytes) == Z(sgn, Norm(Reverse(bytes)))
